@@ -105,6 +105,17 @@ func (s *state) Unset(v uint32) {
 		}
 	}
 }
+func (s *state) tryUnset(v uint32) bool {
+	for {
+		o := atomic.LoadUint32((*uint32)(s))
+		if o&v == 0 {
+			return false
+		}
+		if atomic.CompareAndSwapUint32((*uint32)(s), o, o&^v) {
+			return true
+		}
+	}
+}
 func (s *state) Replacing() bool {
 	return atomic.LoadUint32((*uint32)(s))&stateReplacing != 0
 }
@@ -150,8 +161,7 @@ func (s *state) ChannelCanStop() bool {
 	if s.Closing() || !s.Channel() {
 		return true
 	}
-	if s.ChannelUpdated() {
-		s.Unset(stateChannelUpdated)
+	if s.tryUnset(stateChannelUpdated) {
 		return !s.ChannelValue()
 	}
 	return !s.Channel()
